@@ -178,7 +178,11 @@ class Sim:
                         else:
                             r = plugin.rpc_qwait([cmd[1]])
                             st["sim"].log.append(["released", c, rec(r[0])])
-                    except Exception:        # rpcserver: error response, the connection lives on
+                    except Exception as e:   # rpcserver: error response, the connection lives on
+                        if cmd[0] == "wait" and st.get("wait_serial") is not None:
+                            # the id named a job when the wait started: the client must get that job, finished
+                            st["sim"].v("wait", "connection %d waited for job serial %s and got the error response %s instead of the finished job" % (
+                                c, st["wait_serial"], type(e).__name__))
                         st["sim"].log.append(["keyerr"])
             finally:
                 st["state"] = "dead"
@@ -279,9 +283,7 @@ class Sim:
                     places.append("handed to blocked connection %d" % st["id"])
             if len(places) != 1:
                 self.v("conservation", "unfinished job %s (serial %d) is in %d places: %s" % (jid_s(j.jobid), ser, len(places), places))
-            if wq.id2job.get(j.jobid) is not j and not any(o.drop and o.jobid == j.jobid for o in self.tracked.values() if o is not j):
-                # (excluded: rpc_qdrop outside C16's alphabet - waitjobs deletes id2job[jobid] of a dropped job BY ID, which
-                #  after kill + re-add is the new job; see coq/C16/Properties.v and /verif/fixes/C16-drop-deletes-readded.diff)
+            if wq.id2job.get(j.jobid) is not j:
                 other = wq.id2job.get(j.jobid)
                 self.v("addressable", "unfinished job %s (serial %d) is not the job registered under its id (id2job has serial %s)" % (
                     jid_s(j.jobid), ser, getattr(other, "serial", None)))
